@@ -23,6 +23,25 @@ theorem core_at_most_doubles (base max k : Nat) : coreDelay base max (k + 1) ≤
   simp only [coreDelay, Gen.backoffPowerCap]
   split <;> omega
 
+/-- … and, while the exponent has not saturated and the cap has not been reached, it doubles EXACTLY: the schedule below the
+cap is base, 2·base, 4·base, … (not merely "at most doubling") -/
+theorem core_doubles_exactly_below_cap (base max k : Nat) (hk : k < 31)
+    (hc : max = 0 ∨ coreDelay base max (k + 1) < max) : coreDelay base max (k + 1) = 2 * coreDelay base max k := by
+  have e1 : min (k + 1) 31 = k + 1 := by omega
+  have e2 : min k 31 = k := by omega
+  have h2 : base * 2 ^ (k + 1) = 2 * (base * 2 ^ k) := by
+    rw [Nat.pow_succ, ← Nat.mul_assoc, Nat.mul_comm]
+  simp only [coreDelay, Gen.backoffPowerCap, e1, e2] at hc ⊢
+  rcases hc with h0 | hlt
+  · subst h0; simp only [Nat.lt_irrefl, if_false]; exact h2
+  · split
+    · rename_i hm; simp only [hm, if_true] at hlt; omega
+    · exact h2
+
+/-- closed form without a cap: attempt k waits base · 2^min(k, 31) -/
+theorem core_closed_form_uncapped (base k : Nat) : coreDelay base 0 k = base * 2 ^ (min k 31) := by
+  simp [coreDelay, Gen.backoffPowerCap]
+
 /-- never shrinks -/
 theorem core_monotone (base max k : Nat) : coreDelay base max k ≤ coreDelay base max (k + 1) := by
   have h2 : base * 2 ^ (min k 31) ≤ base * 2 ^ (min (k + 1) 31) :=
